@@ -120,10 +120,7 @@ func (hs *serverHandshakeStateGM) verifEvilFullHandshake(k VerifEvilServer) erro
 	}
 
 	certMsg := new(certificateMsg)
-	//certMsg.certificates = hs.cert.Certificate
-	for i := 0; i < len(hs.cert); i++ {
-		certMsg.certificates = append(certMsg.certificates, hs.cert[i].Certificate...)
-	}
+	certMsg.certificates = gmCertificateList(hs.cert)
 	hs.finishedHash.Write(certMsg.marshal())
 	if _, err := c.writeRecord(recordTypeHandshake, certMsg.marshal()); err != nil {
 		return err
